@@ -20,9 +20,9 @@ def fold_cfg(n, bug="none", selftouch="FALSE", invs=("OperationalIsDeclarative",
             + "".join(f"INVARIANT {i}\n" for i in invs))
 
 
-def record(alg, N):
+def record(alg, N, oracle=True):
     from molgri.space.rotobj import SphereGridFactory
-    rec = dict(alg=alg, n=N, antiOK=True, geo=[], adj=[], borders=[], dists=[], err="")
+    rec = dict(alg=alg, n=N, antiOK=True, geo=[], adj=[], borders=[], dists=[], err="", oracle=oracle, dchk=[], positive=True)
     try:
         with quiet():
             g = SphereGridFactory.create(alg, N, 4)
@@ -39,9 +39,11 @@ def record(alg, N):
         except Exception as ex:
             rec["err"] = f"{getter}:{type(ex).__name__}"
             return rec
+    if not oracle:
+        return structure_only(rec, P, mats, N)
     geo = s3_geometry(P)
     dist_vc = ValueClasses(rel=1e-9, abs_=1e-11)
-    area_vc = ValueClasses(rel=0.0, abs_=1e-5)           # the code rounds cosines to 7 decimals: face areas agree to ~3e-7
+    area_vc = ValueClasses(rel=0.0, abs_=1e-8)           # cosine-law angle sums vs Van Oosterom-Strackee: agree to ~1e-10
     items = []
     for (i, j), (ns, rank, area, theta) in sorted(geo["pairs"].items()):
         items.append((i, j, rank, area, min(theta, math.pi - theta)))
@@ -59,6 +61,26 @@ def record(alg, N):
     return rec
 
 
+def structure_only(rec, P, mats, N):
+    """grids beyond the brute-force bound: patterns, symmetry, positivity and the folded angle of every stored distance"""
+    vc = ValueClasses(rel=1e-9, abs_=1e-11)
+    d = mats["dists"]
+    ang = []
+    for i, j in zip(d.row, d.col):
+        c = abs(float(np.clip(np.dot(P[int(i)], P[int(j)]), -1, 1))) if max(i, j) < len(P) else 0.0
+        ang.append(math.acos(c))
+    vc.add(d.data, ang)
+    rec["dchk"] = [[int(i), int(j), int(vc.ids(v)), int(vc.ids(a))] for i, j, v, a in zip(d.row, d.col, d.data, ang)]
+    for name in ("adj", "borders", "dists"):
+        m = mats[name]
+        rec[name] = [[int(i), int(j)] for i, j, v in zip(m.row, m.col, m.data) if v] if name == "adj" else \
+                    [[int(i), int(j), 0] for i, j, v in zip(m.row, m.col, m.data)]
+    rec["positive"] = bool(np.all(mats["borders"].data > 0) and np.all(mats["dists"].data > 0)
+                           and np.all(np.isfinite(mats["borders"].data)) and np.all(np.isfinite(mats["dists"].data)))
+    rec["shape_ok"] = bool(mats["adj"].shape == (N, N))
+    return rec
+
+
 def run(ctx: Ctx):
     thorough = ctx.tier == "thorough"
     ctx.cov["rule"] = ("cube4D and randomQ, every N from 4 to the bound; every pair of rotations incl. all pairs with index 0 and "
@@ -67,7 +89,7 @@ def run(ctx: Ctx):
     ctx.cov["trusted_base"] = ["harness/oracles/sphere.py (all 4-subsets of the 2N quaternions; face = shared vertices of rank >= 3; "
                                "face area by Van Oosterom-Strackee) - agrees with the code's FULL-sphere relation on every grid "
                                "tried; the fold itself is decided by the spec"]
-    ctx.assumptions += ["face areas compared at absolute 1e-5 (the implementation rounds cosines to 7 decimals); "
+    ctx.assumptions += ["face areas compared at absolute 1e-8; "
                         "pairs whose face area is below 1e-5 are unconstrained"]
     ctx.model("Fold", ctx.cfg("fold3.cfg", fold_cfg(3)), workers=8, note="N=3: all antipodally closed weighted relations without self-touch")
     ctx.model("Fold", ctx.cfg("fold2.cfg", fold_cfg(2)), workers=2, note="N=2")
@@ -84,6 +106,13 @@ def run(ctx: Ctx):
         for alg, N in (("cube4D", 48), ("randomQ", 50), ("cube4D", 60)):
             recs.append(record(alg, N))
             ctx.count(1, nontrivial_key=(alg, N))
+    # beyond the brute-force bound: structure, positivity and folded angles only (every getter must still answer)
+    big = [("randomQ", 60), ("randomQ", 84)]
+    if thorough:
+        big += [(a, n) for a in ("randomQ", "cube4D") for n in range(44, 124, 8)] + [("randomQ", 101), ("randomQ", 150), ("cube4D", 150)]
+    for alg, N in big:
+        recs.append(record(alg, N, oracle=False))
+        ctx.count(1, nontrivial_key=(alg, N))
     for i, r in enumerate(recs):
         r["tid"] = i
     chunk = 20
